@@ -88,10 +88,15 @@ def history(draw):
                     # directory symlink gives a second name: every later
                     # rename then shows up under the alias as well)
                     s['profile'] = None
-            if k == 'update-save' and draw(st.integers(0, 2)) == 0:
+            if k == 'update-save' and draw(st.integers(0, 1)) == 0:
                 # the loader that saves has verified (part of) the tree first
                 s['opts']['api'] = 'lib'
+                s['opts'].pop('spelling', None)
                 s['preverify'] = draw(st.sampled_from(dirs))
+                if len(dirs) > 1 and state['mode'] != 'none' \
+                        and draw(st.booleans()):
+                    # ... and then updates one sub-directory only
+                    s['opts']['target'] = draw(st.sampled_from(dirs[1:]))
             if k == 'fail-fault':
                 s['nth'] = draw(st.integers(0, 40))
                 s['errno'] = draw(st.sampled_from([5, 13, 12, 24]))
@@ -511,7 +516,7 @@ def run_case(desc):
 
 PARTS = [
     Part('histories', run_case, strategy=strat,
-         examples={'quick': 14000, 'thorough': 200000},
+         examples={'quick': 20000, 'thorough': 200000},
          budget={'quick': 60, 'thorough': 900}),
 ]
 
